@@ -243,6 +243,14 @@ def all_or_none_breaks(w, prs, refs=None):
         for f in sorted(own):
             has = [t for t in ts if f in files(t)]
             if has and len(has) != len(ts):
+                # a file can also be missing because somebody took it out again on an integration branch (a revert
+                # by hand is a change like any other): the change itself is the COMMIT that introduced the file
+                intro = git(w.bare, 'log', '--all', '--diff-filter=A', '--format=%H', '--', f).split()
+                if intro:
+                    c = intro[-1]
+                    has = [t for t in ts if w.is_ancestor(c, refs[t])]
+                    if not has or len(has) == len(ts):
+                        continue
                 bad.append((pr['id'], f, has, [t for t in ts if t not in has]))
     return bad
 
